@@ -89,6 +89,17 @@ CLAIMED['C15'] = dict(
    note="Validators are uninterpreted functions of the string they are applied to (their correctness is C16's unit utf8). The user-property loop is closed by a loop contract (partial correctness).",
    design='5 C15')
 
+CLAIMED['C09'] = dict(
+   category='other',
+   text="BOUNDED stand-in only (send queue of at most 2 requests quick / 5 thorough, all flags, serials, handlers, limit and quota symbolic): async_sender::do_write -- if a queued request is marked terminal the write batch is exactly that (first) terminal request, written alone and ahead of every queued packet, the others stay queued and no quota is consumed; at most one gather-write is started and only when none is in progress. NOT built: disconnect_op / terminal_disconnect_op continuations (reason code and properties of the DISCONNECT, oversize -> properties dropped, the 5 s race, shutdown then cancel). NOT decided: everything temporal, 'nothing follows it on that connection', 'no connection until async_run'.",
+   note="A bounded check (labelled bounded in the evidence, never counted as proved). std::vector / find_if / remove_if / erase modelled in models/std.h; moved-from any_completion_handler is empty and moved-from vector is empty (assumed).",
+   design='5 C09')
+CLAIMED['C14'] = dict(
+   category='proof',
+   text="FRAGMENT, proved on subscribe_op: the wait for SUBACK is registered only after the write succeeded and for (SUBACK, this packet id); a success completion happens only after a decodable SUBACK whose admitted reason codes number exactly the requested topics; an undecodable SUBACK or a wrong count / inadmissible code is never surfaced as success (malformed-disconnect + resend, or operation_aborted when the caller cancelled); try_again resends the same request; the packet id is released exactly once per completion; linear continuation. BOUNDED (6 codes quick / 8 thorough): to_reason_codes returns the admitted codes in order -- same length iff every code is listed for SUBACK, and then element-wise equal; complete() passes the codes on (or _num_topics empty codes) and records the first successful subscription. NOT built: unsubscribe_op (same shape), perform/validation; NOT decided: request contents on the wire, that the SUBACK belongs to this request beyond (suback, id).",
+   note="Opaque environment recorded by ghost counters; decode_suback and the tuple accessors are stubs handing out ghost objects.",
+   design='5 C14')
+
 NOT_APPLICABLE = {
  'C02': "liveness under fairness over unbounded fault sequences ('eventually completes once the broker stays reachable'): a function contract cannot state 'eventually', and there is no CBMC model of Boost.Asio scheduling; its function-local safety crumbs are carried under C03/C05 (DESIGN 5 C02)",
 }
